@@ -690,6 +690,20 @@ class Escape:
                               "%s (index computed from received data)" % canon(n), stack, chain)
             elif isinstance(n, ast.BinOp) and isinstance(n.op, (ast.Mod, ast.FloorDiv, ast.Div)):
                 if isinstance(n.left, ast.Constant) and isinstance(n.left.value, str):
+                    # string formatting: total when the number of conversions equals the number of values supplied; a
+                    # mismatch raises TypeError whenever the statement runs (a half-converted log call, ...)
+                    if isinstance(n.op, ast.Mod):
+                        import re as _re
+                        specs = _re.findall(r"%(?:\([^)]*\))?[#0\- +]*(?:\*|\d+)?(?:\.(?:\*|\d+))?[hlL]?([diouxXeEfFgGcrsa%])", n.left.value)
+                        nspec = sum(1 for c_ in specs if c_ != "%") + n.left.value.count("*") - 0
+                        named = "%(" in n.left.value
+                        if not named:
+                            nval = len(n.right.elts) if isinstance(n.right, ast.Tuple) else (None if isinstance(n.right, (ast.Name, ast.Attribute, ast.Call, ast.Subscript, ast.Starred)) and nspec != 1 else 1)
+                            if isinstance(n.right, ast.Tuple) and any(isinstance(x, ast.Starred) for x in n.right.elts):
+                                nval = None
+                            if nval is not None and nval != nspec:
+                                self.site("format", "TypeError", n if not synthetic else st, mod, ci, fd,
+                                          "%s: %d conversion(s) for %d value(s)" % (canon(n)[:60], nspec, nval), stack, chain)
                     continue      # string formatting
                 if isinstance(n.right, ast.Tuple):
                     continue
